@@ -244,7 +244,11 @@ class SP:
                 if p.peek() == ("op", "("):
                     p.eat(); v = p.eat("id"); p.eat("op", ")")
                 p.eat("op", "="); p.eat("op", ">")
-                arms[ctor] = (v, self.braced())
+                if p.peek() == ("op", "(") and p.peek(1) == ("op", ")"):
+                    p.eat(); p.eat()
+                    arms[ctor] = (v, [])
+                else:
+                    arms[ctor] = (v, self.braced())
                 if p.peek() == ("op", ","):
                     p.eat()
             p.eat("op", "}")
@@ -428,8 +432,8 @@ class Gen:
             ev, eb = arms["LookedUp::EmptySpot"]
             _, nb = arms["LookedUp::NeedInsert"]
             return (f"(match {scrut} with | Except.error err => Except.error err "
-                    f"| Except.ok (Looked.found {fv}, _) => {self.comp(fb + rest, scope + [fv], tail)} "
-                    f"| Except.ok (Looked.empty {ev}, _) => {self.comp(eb + rest, scope + [ev], tail)} "
+                    f"| Except.ok (Looked.found {fv}, _) => {self.comp(fb + rest, scope + ([fv] if fv != '_' else []), tail)} "
+                    f"| Except.ok (Looked.empty {ev}, _) => {self.comp(eb + rest, scope + ([ev] if ev != '_' else []), tail)} "
                     f"| Except.ok (Looked.needInsert, _) => {self.comp(nb + rest, scope, tail)})")
         if k == "callrm":
             _, x, key, arr, off = s
@@ -621,8 +625,28 @@ def gen_insert_fast(src, W, suffix):
         raise TieError(f"insert ({suffix}): heap arm room test")
     _, after = block_after(ab, room.end() - 1)
     heap = ab[:room.start()] + pseudo + ab[room.end():after] + " panic!()"
+    # Big arm: the placeholder re-selection (`e == s.bits`) and the growth after the room test are not translated
+    mm = re.search(r'InternalMut::Big \{ s, a \} => \{', body)
+    if not mm:
+        raise TieError(f"insert ({suffix}): big arm")
+    ab = body_of(body, mm.end() - 1)[0]
+    k = re.match(r'\s*if e == s\.bits \{', ab)
+    if not k:
+        raise TieError(f"insert ({suffix}): big arm placeholder test")
+    _, after = block_after(ab, k.end() - 1)
+    ab = ab[:k.end()] + " panic!() }" + ab[after:]
+    ab = re.sub(r'a\[p_insert\(e, a, 0\)\] = e;', 'let idx = p_insert(e, a, 0); a[idx] = e;', ab)
+    if W == 64:
+        room = re.search(r'if a\.iter\(\)\.cloned\(\)\.any\(\|x\| x == 0\) \{', ab)
+    else:
+        room = re.search(r'if a\.iter\(\)\s*\.cloned\(\)\s*\.filter\(\|&x\| x == 0\)[^\n]*\s*\.enumerate\(\)[^\n]*\s*\.any\(\|\(n, _\)\| n \+ 1 > a\.len\(\) >> 4\)\s*(?://[^\n]*\s*)?\{', ab)
+    if not room:
+        raise TieError(f"insert ({suffix}): big arm room test")
+    _, after = block_after(ab, room.end() - 1)
+    big = ab[:room.start()] + pseudo + ab[room.end():after] + " panic!()"
     for arm, text, params, szvar in (("dense", dense, [("e", "Nat"), ("sz", "Nat"), ("a", "Array Nat")], "sz"),
-                                     ("heap", heap, [("e", "Nat"), ("s_sz", "Nat"), ("s_bits", "Nat"), ("a", "Array Nat")], "s_sz")):
+                                     ("heap", heap, [("e", "Nat"), ("s_sz", "Nat"), ("s_bits", "Nat"), ("a", "Array Nat")], "s_sz"),
+                                     ("big", big, [("e", "Nat"), ("s_sz", "Nat"), ("s_bits", "Nat"), ("a", "Array Nat")], "s_sz")):
         sp = SP(lex(text), W, suffix)
         sp.p.aliases = {}
         stmts = sp.block()
